@@ -164,7 +164,8 @@ impl StaticsContext {
         iface: &Rc<InterfaceDef>,
     ) -> Option<Rc<InterfaceImpl>> {
         // TODO: cache this using hashmap
-        let impl_list = self.interface_impls[iface].clone();
+        // an interface without any implementation has no entry
+        let impl_list = self.interface_impls.get(iface).cloned().unwrap_or_default();
         // an impl for a type that does not resolve (already reported) fits nothing
         impl_list.into_iter().find(|imp| {
             imp.typ
